@@ -157,6 +157,24 @@ func decFrame(v hv.Val) spdy.Frame {
 	return nil
 }
 
+// compactVal: like frameVal but DATA as [0 sid flags len first last] and SETTINGS as [4 ver flags len count]
+func compactVal(f spdy.Frame) hv.Val {
+	switch x := f.(type) {
+	case *spdy.DataFrame:
+		fb, lb := -1, -1
+		if len(x.Data) > 0 {
+			fb, lb = int(x.Data[0]), int(x.Data[len(x.Data)-1])
+		}
+		return hv.L{hv.I(0), hv.U(uint64(x.StreamId)), hv.I(int(x.Flags)), hv.I(len(x.Data)), hv.I(fb), hv.I(lb)}
+	case *spdy.SettingsFrame:
+		ver, ln := spdy.VerifCF(x.CFHeader)
+		return hv.L{hv.I(4), hv.I(int(ver)), hv.I(int(x.CFHeader.Flags)), hv.U(uint64(ln)), hv.I(len(x.FlagIdValues))}
+	}
+	return frameVal(f)
+}
+
+var compactMode bool
+
 // readAll: ReadFrame until a connection-level error (anything that is not *spdy.Error) or 64 frames.
 func readAll(wire []byte, withOff bool) hv.Val {
 	rr := &recReader{r: bytes.NewReader(wire)}
@@ -174,6 +192,8 @@ func readAll(wire []byte, withOff bool) hv.Val {
 			v = errVal(err)
 			kind, _, _ := spdy.VerifErrCode(err)
 			stop = kind == 2
+		} else if compactMode {
+			v = compactVal(f)
 		} else {
 			v = frameVal(f)
 		}
@@ -212,6 +232,91 @@ func impl(in hv.Val) hv.Val {
 		return readAll(buf.Bytes(), false)
 	case 4:
 		return readAll(hv.AsBytes(l[1]), true)
+	case 5: // compact DATA round trip
+		n := int(hv.AsInt(l[3]))
+		if n < 0 || n > 1<<24+16 {
+			return hv.Err(0)
+		}
+		buf := bytes.NewBuffer(make([]byte, 0, n+64))
+		fw, err := spdy.NewFramer(buf, nil)
+		if err != nil {
+			return hv.Err(9)
+		}
+		data := bytes.Repeat([]byte{byte(hv.AsInt(l[4]))}, n)
+		werr := fw.WriteFrame(&spdy.DataFrame{StreamId: spdy.StreamId(uint32(hv.AsInt(l[1]))), Flags: spdy.DataFlags(uint8(hv.AsInt(l[2]))), Data: data})
+		_, code, _ := spdy.VerifErrCode(werr)
+		hdr := []byte{}
+		if buf.Len() >= 8 {
+			hdr = append(hdr, buf.Bytes()[:8]...)
+		}
+		fw.WriteFrame(&spdy.PingFrame{Id: 7})
+		fw.ReleaseWriter()
+		compactMode = true
+		rb := readAll(buf.Bytes(), true)
+		compactMode = false
+		return hv.L{hv.L{hv.I(code), hv.B(hdr)}, rb}
+	case 6: // header-bearing frame with one incompressible header value
+		vlen := int(hv.AsInt(l[4]))
+		if vlen < 0 || vlen > 1<<24+4096 {
+			return hv.Err(0)
+		}
+		val := make([]byte, vlen)
+		x := uint64(0x9e3779b97f4a7c15)
+		for i := range val {
+			x ^= x << 13
+			x ^= x >> 7
+			x ^= x << 17
+			val[i] = byte(x >> 32)
+		}
+		buf := bytes.NewBuffer(make([]byte, 0, vlen+vlen/64+4096))
+		fw, err := spdy.NewFramer(buf, nil)
+		if err != nil {
+			return hv.Err(9)
+		}
+		h := http.Header{"x": []string{string(val)}}
+		sid := spdy.StreamId(uint32(hv.AsInt(l[3])))
+		fl := spdy.ControlFlags(uint8(hv.AsInt(l[2])))
+		if hv.AsInt(l[1]) == 2 {
+			f := &spdy.SynReplyFrame{StreamId: sid, Headers: h}
+			f.CFHeader.Flags = fl
+			fw.WriteFrame(f)
+		} else {
+			f := &spdy.HeadersFrame{StreamId: sid, Headers: h}
+			f.CFHeader.Flags = fl
+			fw.WriteFrame(f)
+		}
+		fw.ReleaseWriter()
+		if buf.Len() < 12 {
+			return hv.L{hv.B(nil), hv.I(buf.Len())}
+		}
+		return hv.L{hv.B(append([]byte(nil), buf.Bytes()[:12]...)), hv.I(buf.Len())}
+	case 7: // SETTINGS with n entries
+		n := int(hv.AsInt(l[2]))
+		if n < 0 || n > 1<<21+16 {
+			return hv.Err(0)
+		}
+		buf := bytes.NewBuffer(make([]byte, 0, 8*n+64))
+		fw, err := spdy.NewFramer(buf, nil)
+		if err != nil {
+			return hv.Err(9)
+		}
+		f := &spdy.SettingsFrame{FlagIdValues: make([]spdy.SettingsFlagIdValue, n)}
+		f.CFHeader.Flags = spdy.ControlFlags(uint8(hv.AsInt(l[1])))
+		for i := range f.FlagIdValues {
+			f.FlagIdValues[i] = spdy.SettingsFlagIdValue{Flag: 0, Id: 4, Value: 100}
+		}
+		fw.WriteFrame(f)
+		w := buf.Len()
+		hdr := append([]byte(nil), buf.Bytes()[:12]...)
+		fw.WriteFrame(&spdy.PingFrame{Id: 7})
+		fw.ReleaseWriter()
+		var rb hv.Val = hv.L{}
+		if n <= 1100 {
+			compactMode = true
+			rb = readAll(buf.Bytes(), true)
+			compactMode = false
+		}
+		return hv.L{hv.B(hdr), hv.I(w), rb}
 	}
 	return hv.Err(0)
 }
@@ -226,6 +331,7 @@ var uniGrow = []string{"Ⱥ", "x\xff", "\xc3"}                         // grow: t
 var invalidNames = []string{"Connection", "host", "keep-alive", "Transfer-Encoding", "proxy-connection"}
 
 func pickInt(r *hv.Rng, xs []int) int { return xs[r.Intn(len(xs))] }
+func pickI(r *hv.Rng, xs []int) int   { return pickInt(r, xs) }
 
 func canonKey(name string) string { return textproto.CanonicalMIMEHeaderKey(strings.ToLower(name)) }
 
@@ -628,7 +734,48 @@ func genWire(r *hv.Rng) (string, hv.Val) {
 	return class, hv.L{hv.I(4), hv.B(wire), chunks}
 }
 
+// length-field boundaries (compact inputs: the 16 MB payloads exist only inside the harness)
+var boundary = []struct {
+	class string
+	in    hv.Val
+}{
+	{"len-data-0", hv.L{hv.I(5), hv.I(1), hv.I(0), hv.I(0), hv.I(65)}},
+	{"len-data-1", hv.L{hv.I(5), hv.I(1), hv.I(1), hv.I(1), hv.I(65)}},
+	{"len-data-max-1", hv.L{hv.I(5), hv.I(3), hv.I(0), hv.I(1<<24 - 2), hv.I(66)}},
+	{"len-data-max", hv.L{hv.I(5), hv.I(3), hv.I(1), hv.I(1<<24 - 1), hv.I(67)}},
+	{"len-data-over", hv.L{hv.I(5), hv.I(3), hv.I(0), hv.I(1 << 24), hv.I(68)}},
+	{"len-data-over+1", hv.L{hv.I(5), hv.I(3), hv.I(0), hv.I(1<<24 + 1), hv.I(69)}},
+	{"len-data-sid0", hv.L{hv.I(5), hv.I(0), hv.I(0), hv.I(10), hv.I(70)}},
+	{"len-data-sid31", hv.L{hv.I(5), hv.I(1 << 31), hv.I(0), hv.I(10), hv.I(70)}},
+	{"len-data-sidmax", hv.L{hv.I(5), hv.I(1<<31 - 1), hv.I(255), hv.I(65535), hv.I(255)}},
+	{"len-settings-0", hv.L{hv.I(7), hv.I(0), hv.I(0)}},
+	{"len-settings-1024", hv.L{hv.I(7), hv.I(1), hv.I(1024)}},
+	{"len-settings-1025", hv.L{hv.I(7), hv.I(0), hv.I(1025)}},
+	{"len-settings-2^21-1", hv.L{hv.I(7), hv.I(0), hv.I(1<<21 - 1)}},
+	{"len-settings-2^21", hv.L{hv.I(7), hv.I(0), hv.I(1 << 21)}},
+	{"len-hdr-small", hv.L{hv.I(6), hv.I(2), hv.I(1), hv.I(5), hv.I(1000)}},
+	{"len-hdr-1M", hv.L{hv.I(6), hv.I(8), hv.I(0), hv.I(5), hv.I(1 << 20)}},
+	{"len-hdr-over", hv.L{hv.I(6), hv.I(2), hv.I(0), hv.I(5), hv.I(1 << 24)}},
+}
+
 func gen(r *hv.Rng, i int, tier string) (string, hv.Val) {
+	if i < len(boundary) {
+		return boundary[i].class, boundary[i].in
+	}
+	if i%50 == 7 { // random compact cases; a few per run at the 2^24 boundary
+		switch r.Intn(3) {
+		case 0:
+			n := pickI(r, []int{0, 1, 2, 255, 256, 65535, 65536, 70000, r.Intn(200000)})
+			if i%1000 == 7 && tier == "thorough" {
+				n = 1<<24 + pickI(r, []int{-2, -1, 0, 1})
+			}
+			return "len-data", hv.L{hv.I(5), hv.I(pickI(r, []int{0, 1, 2, 77, 1<<31 - 1, 1 << 31})), hv.I(r.Intn(256)), hv.I(n), hv.I(r.Intn(256))}
+		case 1:
+			return "len-settings", hv.L{hv.I(7), hv.I(r.Intn(256)), hv.I(pickI(r, []int{0, 1, 2, 100, 1023, 1024, 1025, 1100, 1101, 5000}))}
+		default:
+			return "len-hdr", hv.L{hv.I(6), hv.I(pickI(r, []int{2, 8})), hv.I(r.Intn(256)), hv.I(r.Range(1, 1000)), hv.I(pickI(r, []int{0, 1, 100, 4096, 65536, 100000}))}
+		}
+	}
 	switch i % 4 {
 	case 0:
 		h, c := genHdrs(r, 4, 1)
